@@ -44,6 +44,9 @@ def suite_ls(rng, tier, flavour):
         p = gen.random_history(rng, flavour, rng.randrange(5, 60), hostile=0.3, real_writes=0.1)
         yield p
 
+def suite_relist(rng, tier, flavour):         # C10
+    yield from gen.relist_programs(rng, flavour, 40 if tier == "quick" else 400)
+
 W_HEALTHY = {"write": 3, "write_hash": 1, "stream": 3, "lookup": 4, "reader": 2}
 W_ALL = {"write": 3, "write_hash": 1, "stream": 3, "stream_drop": 1, "lookup": 4, "reader": 2, "extract": 2, "remove": 2, "insert": 1}
 
@@ -68,6 +71,8 @@ def suite_roundtrip_ok(rng, tier, flavour):   # C02: only correct declarations, 
             elif r < 0.45: b.op_write_hash(big)
             else: b.op_stream(big, size_mode=rng.choice(["none", "ok"]), sri_mode=rng.choice(["none", "none", "ok"]))
             b.op_lookup()
+            if rng.random() < 0.25:
+                b.op_restore()
         b.final_lookups()
         yield b.prog
 
@@ -162,8 +167,8 @@ REGISTRY = {
             "rule": "strace kill sweep over keyed writes, overwrites (multi-byte UTF-8 metadata; after a long history: bucket > 64 KiB), rejected commits and tombstone removals: SIGKILL on entry to every mutating system call, the index append torn at EVERY byte length; on each surviving directory a fresh process looks the key up (previous or new entry, never a mixture; new entry => its data reads back), every other key unchanged, then writes the key again and reads it back; the tree is one of the model's crash states."},
     "C13": {"flavours": Q3, "suites": [], "step_suites": [("fault", steps.suite_fault), ("retry", steps.suite_fault_retry), ("fsize", steps.suite_fsize)],
             "rule": "strace fault sweep: every system call (open/read/write/mkdir/rename/unlink/link/stat/getdents/...) that names a path inside the cache during write, write_hash, streamed open/chunk/commit, read, read_hash, metadata, copy, remove, remove_hash, list is made to fail once with EIO / ENOSPC (thorough: + EACCES, EMFILE); the call must answer an error or a truthful success (written data reads back, reads return the stored bytes, metadata/list do not silently lose entries), never panic/hang/die; afterwards content files hash to their paths, unnamed entries are unchanged (a temp file left by a failed call is counted, not alarmed on: the property names the content and index areas only); and the same call issued again without the fault succeeds; plus genuine short writes: the process's file-size limit is lowered during a streamed write (one write(2) short, the next EFBIG), the failed write() call is retried after the limit is lifted, and a commit that reports success must read back exactly the acknowledged bytes."},
-    "C15": {"flavours": Q3, "suites": [("layouts", suite_layouts)], "step_suites": [("confine", steps.suite_confine)],
-            "rule": "strace path audit: for hostile / confusable / random Unicode keys a 25-call program covering every kind of operation is traced; every mutating system call must name paths inside the cache root (extractions: or their destination), read-only calls must issue no mutating system call, path components under the cache are never empty, '.', '..' or contain NUL, components under index-v5 are hex, content files are never opened for writing in place, the working directory is untouched."},
+    "C15": {"flavours": Q3, "suites": [("layouts", suite_layouts), ("damage_content", suite_damage_content)], "step_suites": [("confine", steps.suite_confine)],
+            "rule": "strace path audit: for hostile / confusable / random Unicode keys a 25-call program covering every kind of operation is traced; every mutating system call must name paths inside the cache root (extractions: or their destination), read-only calls must issue no mutating system call, path components under the cache are never empty, '.', '..' or contain NUL, components under index-v5 are hex, content files are never opened for writing in place, the working directory is untouched; plus differential programs on damaged content (every read-only entry point on entries whose content was flipped / truncated / replaced / removed: the tree afterwards is the model's, i.e. unchanged) and two cache-path layouts."},
     "C11": {"flavours": Q3, "suites": [("meta", suite_meta), ("commit", suite_commit)],
             "rule": "several writes to one key with fields (data, time incl. 2^128-1, JSON metadata trees, raw bytes, declared size, single/multi-hash integrity) drawn from small pools so that successive records differ in one field or repeat earlier values, via streamed writers and index::insert, read back by metadata/find/list after each; bucket bytes compared byte for byte (explicit times); default time checked against the call's wall-clock window."},
     "C17": {"flavours": Q3, "suites": [("refwrites", suite_refwrites), ("refcache", suite_refcache), ("meta", suite_meta), ("hist", suite_hist)],
@@ -190,6 +195,6 @@ REGISTRY = {
             "rule": "exhaustive histories over 2 keys x 2 values x {insert,remove} x {sync,async} up to length 2 (quick) / 3 (thorough) with lookups of both keys after every step, plus random histories of 3..40 ops (index::insert with random options, real writes, removes) over small and hostile keys, lookups via find/metadata/read/list; plus buckets pre-filled with interleaved records of the key and of foreign keys (as if their SHA-1 collided), foreign tombstones after the key's last write included."},
     "C06": {"flavours": Q3, "suites": [("damage", suite_damage), ("bitflips", suite_bitflips)],
             "rule": "buckets of 2..6 reference-written records (tombstones, foreign keys) are damaged: one record cut at every byte length, bit flips, garbage / NUL / invalid-UTF-8 / lone-CR lines, destroyed newlines, duplicated fragments; then lookups through sync and async and the listing, a further API insert, and lookups again; plus every single-bit flip of the first 80 bytes (newline, checksum, tab, start of the JSON) of the newest record (quick) / of every byte of it (thorough)."},
-    "C10": {"flavours": Q2, "suites": [("ls", suite_ls), ("damage", suite_damage)], "step_suites": [("fault_listing", steps.suite_fault_listing)],
-            "rule": "random histories of 5..60 ops over small and hostile keys followed by metadata of every key and list_sync, every listed entry compared field by field with the model; plus the damaged buckets of C06 (listing vs lookups); plus, with strace, the states a failed call leaves behind: after every single fault (EIO; thorough: ENOSPC, EACCES) of every write / removal / full removal, a fresh process's listing and lookups agree key by key."},
+    "C10": {"flavours": Q2, "suites": [("ls", suite_ls), ("damage", suite_damage), ("relist", suite_relist)], "step_suites": [("fault_listing", steps.suite_fault_listing)],
+            "rule": "random histories of 5..60 ops over small and hostile keys followed by metadata of every key and list_sync, every listed entry compared field by field with the model; plus the damaged buckets of C06 (listing vs lookups); plus, with strace, the states a failed call leaves behind: after every single fault (EIO; thorough: ENOSPC, EACCES) of every write / removal / full removal, a fresh process's listing and lookups agree key by key; plus relist programs: list, the key's bucket file deleted (full removal / clear) and re-created with a record of exactly the same length, list again in the same process."},
 }
